@@ -91,10 +91,11 @@ static void run(const History& h, const std::string& family) {
    vf::note(hist_text(h)); ++g_histories; vf::heartbeat();
    Logging::reset();
    Logging& lg = Logging::instance();
-   id_t id0 = lg.findCreateLog("l0"), id1 = 0;
-   RecDest *d00 = new RecDest, *d01 = new RecDest, *d10 = new RecDest;
+   id_t id0 = lg.findCreateLog("l0"), id1 = 0, id2 = 0, id3 = 0;
+   RecDest *d00 = new RecDest, *d01 = new RecDest, *d10 = new RecDest, *d20 = new RecDest, *d30 = new RecDest;
    lg.getLog(id0)->addDestination("d00", d00); lg.getLog(id0)->addDestination("d01", d01);
-   auto create_l1 = [&]() { id1 = lg.findCreateLog("l1"); lg.getLog(id1)->addDestination("d10", d10); };
+   // l1, then two more unfiltered logs l2, l3: messages to id sets with GAPS (l0+l2, l0+l3, l1+l3) must reach every selected log
+   auto create_l1 = [&]() { id1 = lg.findCreateLog("l1"); lg.getLog(id1)->addDestination("d10", d10); id2 = lg.findCreateLog("l2"); lg.getLog(id2)->addDestination("d20", d20); id3 = lg.findCreateLog("l3"); lg.getLog(id3)->addDestination("d30", d30); };
    if (!h.create_l1_after_policy) create_l1();
    filter::Filters::setDuplicatePolicy(DP::ignore);
    Ref rl, rd; DP pol = DP::ignore; bool bad = false;
@@ -118,21 +119,23 @@ static void run(const History& h, const std::string& family) {
    if (id1 == 0) create_l1();
    if (!bad) {
       // ---- messages
-      struct Target { id_t mask; const char* name; bool l0, l1; };
-      const Target targets[] = {{id0, nullptr, true, false}, {id1, nullptr, false, true}, {id0 | id1, nullptr, true, true}, {id0 | (id1 << 3), nullptr, true, false}, {0, "l0", true, false}, {0, "l1", false, true}, {0, "nolog", false, false}};
+      struct Target { id_t mask; const char* name; bool l0, l1, l2, l3; };
+      const Target targets[] = {{id0, nullptr, true, false, false, false}, {id1, nullptr, false, true, false, false}, {id0 | id1, nullptr, true, true, false, false}, {id0 | (id3 << 3), nullptr, true, false, false, false},
+                                {id0 | id2, nullptr, true, false, true, false}, {id0 | id3, nullptr, true, false, false, true}, {id1 | id3, nullptr, false, true, false, true}, {id0 | id1 | id3, nullptr, true, true, false, true}, {id3, nullptr, false, false, false, true},
+                                {0, "l0", true, false, false, false}, {0, "l1", false, true, false, false}, {0, "l3", false, false, false, true}, {0, "nolog", false, false, false, false}};
       for (auto& t : targets) {
-         d00->clear(); d01->clear(); d10->clear();
+         d00->clear(); d01->clear(); d10->clear(); d20->clear(); d30->clear();
          for (int l = 1; l <= 6; ++l) for (int c = 1; c <= 6; ++c) {
             detail::LogMsg m("f.cpp", "fn", 1); m.setLevel(LogLevel(l)); m.setClass(LogClass(c)); m.setText("t"); m.setTimestamp(1);
             if (t.name) lg.log(std::string(t.name), m); else lg.log(t.mask, m);
             ++g_deliveries;
          }
          for (int l = 1; l <= 6; ++l) for (int c = 1; c <= 6; ++c) {
-            int e00 = t.l0 && rl.pass(l, c) && rd.pass(l, c), e01 = t.l0 && rl.pass(l, c), e10 = t.l1;
-            int g00 = d00->received[l][c], g01 = d01->received[l][c], g10 = d10->received[l][c];
-            if (g00 != e00 || g01 != e01 || g10 != e10) {
+            int e00 = t.l0 && rl.pass(l, c) && rd.pass(l, c), e01 = t.l0 && rl.pass(l, c), e10 = t.l1, e20 = t.l2, e30 = t.l3;
+            int g00 = d00->received[l][c], g01 = d01->received[l][c], g10 = d10->received[l][c], g20 = d20->received[l][c], g30 = d30->received[l][c];
+            if (g00 != e00 || g01 != e01 || g10 != e10 || g20 != e20 || g30 != e30) {
                std::string which = g00 != e00 ? "filtered-destination" : g01 != e01 ? "sibling-destination" : "other-log";
-               int got = g00 != e00 ? g00 : g01 != e01 ? g01 : g10, exp = g00 != e00 ? e00 : g01 != e01 ? e01 : e10;
+               int got = g00 != e00 ? g00 : g01 != e01 ? g01 : g10 != e10 ? g10 : g20 != e20 ? g20 : g30, exp = g00 != e00 ? e00 : g01 != e01 ? e01 : g10 != e10 ? e10 : g20 != e20 ? e20 : e30;
                // which filter type decides?
                // the filter type that decides this message: the first one (log filters first) whose value in effect rejects/accepts differently is not known; name the types on the object that misbehaves
                std::string ft; for (auto& st : h.steps) if ((which == "filtered-destination") || st.target == 0) { std::string n = type_text[st.s.type]; if (ft.find(n) == std::string::npos) ft += (ft.empty() ? "" : "+") + n; }
@@ -192,7 +195,7 @@ int main(int argc, char** argv) {
       if (!vf::want_case()) continue;
       History h; h.steps = {{target, s}}; h.policy = 0; h.policy_pos = 0; h.create_l1_after_policy = false;
       run(h, "single"); vf::nontrivial_by_construction();
-      if (vf::current_case() % 41 == 0) vf::sample(hist_text(h) + " x 36 messages x 7 ways of addressing the logs");
+      if (vf::current_case() % 41 == 0) vf::sample(hist_text(h) + " x 36 messages x 13 ways of addressing the logs");
    }
    // ---- part B: histories
    std::vector<Setting> pool;
@@ -217,7 +220,7 @@ int main(int argc, char** argv) {
             run(h, "history");
          }
          vf::nontrivial_by_construction();
-         if (vf::current_case() % 4999 == 0) vf::sample(hist_text(h) + " (+ every policy / policy position / creation order) x 36 messages x 7 ways of addressing the logs");
+         if (vf::current_case() % 4999 == 0) vf::sample(hist_text(h) + " (+ every policy / policy position / creation order) x 36 messages x 13 ways of addressing the logs");
          if (vf::deadline_hit()) break;
       }
    }
